@@ -58,6 +58,19 @@ def main():
         m3 = re.search(r"Summary \[.*?\] (.*)", out3)
         failed = sorted(set(re.findall(r"^\s*(?:FAIL|TIMEOUT|SIGABRT|SIGSEGV)\s+\[[^\]]*\]\s+(.*)$", out3, re.M)))
         meta["ran"].append({"cmd": cmd3 + "   # repository suite, with the change", "rc": rc3, "result": m3.group(1) if m3 else out3[-300:], "failed_tests": failed[:10]})
+        # A suite failure is re-run on its own (three times, with the change): the repository has a
+        # test whose input strategy is occasionally empty (buffered::tests::proptest_success draws
+        # `1..total_size` with total_size = 1), which fails about one suite run in thirty whatever the tree.
+        if rc3 != 0 and failed and len(failed) <= 2:
+            names3 = [f.split()[-1] for f in failed]
+            reruns = []
+            for _ in range(3):
+                rcr, outr = sh("cargo nextest run --workspace --no-fail-fast --offline " + " ".join(names3), timeout=3600)
+                reruns.append(rcr)
+            meta["ran"].append({"cmd": "cargo nextest run --workspace --offline " + " ".join(names3) + "   # the failed test(s) alone, with the change, three times", "rcs": reruns})
+            if all(x == 0 for x in reruns):
+                rc3 = 0
+                meta["suite_failure_was_flaky"] = names3
         ok = rc1 == 0 and m1 and int(m1.group(2)) >= 1 and rc2 != 0 and rc3 == 0
         meta["confirmed"] = bool(ok)
         meta["confirm_wall_s"] = round(time.time() - t0)
